@@ -4,4 +4,5 @@ pub mod exec;
 pub mod gen;
 pub mod steps;
 pub mod tap;
+pub mod txenum;
 pub mod view;
